@@ -477,6 +477,7 @@ impl Server {
                         .change_key(&key, &new_key)
                         .iter(),
                 );
+                patch.copy_front_matter(&key, &new_key);
 
                 affected_keys.iter().for_each(|affected_key| {
                     patch.build_key(&affected_key).insert_from_iter(
